@@ -8,7 +8,12 @@
      impl.assemble(reset=False), then a probe whose full result must equal that of a fresh process;
      the module-level state is read after every item (the model says: restored) and a structural
      fingerprint of every module-level object of the package is compared before / after;
- (c) the probes in fresh processes under PYTHONHASHSEED 0..15 and random.
+ (c) the probes in fresh processes under PYTHONHASHSEED 0..15 and random;
+ (d) histories on the real file system: 1-6 earlier assemblies in one process, each a real run in a real directory tree (the command
+     line's main_cli() called in-process with -o / --lst, or parse + Compiler + emit_files under bare / relative / absolute source
+     paths) whose sources write and read files (make_* / .include / insert_file) under names of one family of spellings ('~letters' in
+     any case, other '~...' names, names with a directory part, absolute names), then a probe using the same names from another
+     directory; status, base, bytes, diagnostics, what is printed and EVERY FILE WRITTEN (path and content) must equal a fresh process.
 """
 import json
 import multiprocessing as mp
@@ -36,17 +41,28 @@ RULE = ("(a) seeded nestings (depth <= 6, <= 40 nodes) of the three context mana
         "limit, warnings filters, locale, cwd, environ, streams, hooks, signal handlers ...) is compared with the one taken before the history; "
         "(c) every probe (incl. programs with groups of 2-5 equal-valued labels / constants under random names) under PYTHONHASHSEED 0..15 and a random seed, "
         "comparing outcome, base, bytes, diagnostics and the listing text; and the command line with --lst -o under the same seeds (also programs with 2-4 make_* "
-        "directives of different formats on ONE file, spelt in ways that normalise to the same path: the last in source order must win), comparing every file written. non-trivial = distinct (history kinds, probe) with >= 1 non-valid item, "
-        "or a distinct nesting that raises or returns through >= 1 context manager")
+        "directives of different formats on ONE file, spelt in ways that normalise to the same path: the last in source order must win), comparing every file written; "
+        "(d) seeded file-system histories: a directory tree (cwd, two other source directories, sub-directories) with input files under the scenario's names, 1-6 earlier real "
+        "assemblies in one process -- pdpy11's own main_cli() called in-process (source given relative / absolute, with -o NAME, --lst, --implicit-bin) or parse + Compiler + "
+        "emit_files with the source path given bare ('s.mac' in the cwd), relative or absolute -- valid or with a planted fault (undefined symbol, syntax error, missing include, "
+        "output into a missing directory), whose sources contain make_raw / make_bin / make_bk0010_rom / make_wav / insert_file / .include of NAMEs drawn from: '~' + letters "
+        "(lower, upper, mixed case; the history may spell the probe's name in another case), other names starting with '~' ('~out1', '~out.bin', '~', '~~out', '~out x', '~d/out'), "
+        "plain names, names with ./ ../ sub/ parts, absolute names, names with a space; the tree is rebuilt, then the probe (another source directory, the same names) runs and its status / "
+        "outcome, base, bytes, diagnostics, printed text and the set of files written (relative path + content hash) are compared with the same probe in a fresh process; spellings that reach "
+        "a registered device (~speaker) are not generated; 4 fixed shapes (bare '~name' written by a bare-named source or -o, then written / inserted / included from another directory) are always present. non-trivial = distinct (history kinds, probe) with >= 1 non-valid item, "
+        "or a distinct nesting that raises or returns through >= 1 context manager, or a distinct file-system scenario (history kinds, probe kind, names)")
 LEVEL_TEXT = ("Coq theorems over the __enter__/__exit__ steps regenerated from deferred.py / reports.py on every run: every nesting of the three context "
               "managers, with bodies that finish, return or raise anything anywhere (including __enter__ raising on a cycle and a nested handler's "
               "__exit__ raising), leaves depth, awaiting_stack, handlers_stack and every is_awaiting flag as they were (induction on the nesting); the "
               "outcome of a program depends only on that state and on the latches of instances on the stack, so a probe after any history behaves as "
               "before it; the asserts in __exit__ never fire. Partial: that no other state survives between assemblies (token caches, hashing, "
-              "interpreter) is the translator's usage scan plus history / fresh-process / PYTHONHASHSEED runs, not proved.")
+              "interpreter, the device table consulted when output / include paths are resolved) is the translator's usage scan plus history / fresh-process / PYTHONHASHSEED runs "
+              "(in memory and on the real file system, files written compared), not proved.")
 LEVEL_NOTE = ("Trusted: Coq kernel + vm_compute, tools/gens/gen_reports.py (statement-by-statement translation of the six methods; syntactic usage scan "
               "that does not follow aliases), the history harness. Injected interruptions are delivered at function-call boundaries outside "
-              "__enter__/__exit__ (an asynchronous exception inside __exit__ itself is outside the model and the property).")
+              "__enter__/__exit__ (an asynchronous exception inside __exit__ itself is outside the model and the property). The file-system histories (d) have no Coq model: "
+              "their oracle is metamorphic only (same tree, same probe, fresh process); they call pdpy11._cli.main_cli() in-process with sys.argv / stdout / stderr replaced, "
+              "which is the only way to run the command line twice in one process; device names that play sound are excluded from the name family.")
 TECHNIQUE = "Coq proof over regenerated state steps + usage scan + metamorphic history / fresh-process correspondence"
 ASSUME = ["exceptions are raised synchronously (no asynchronous exception inside __enter__/__exit__ of the three classes)",
           "module-level objects are not reached through aliases the syntactic scan cannot see (checked at run time by a structural fingerprint)"]
@@ -875,8 +891,307 @@ def cli_hash_part(rep, rng, nprobes, seeds):
                                 f"through the command line with --lst -o under PYTHONHASHSEED in {list(seeds)}, every written file compared")
 
 
+# ---------------------------------------------------------------------------------------------
+# (d) histories on the real file system: "files written" (and files read) as part of the result
+#
+# The histories of (b) run on in-memory sources and never emit a file, so nothing that the output / include path code
+# (devices.py, emit_files, the command line's -o / --lst) keeps between assemblies could show.  Here every item is a real
+# assembly in a real directory tree -- through the command line's own main_cli() called in-process, or through
+# parse + Compiler + emit_files as a library user calls them -- whose sources name files (make_* / .include / insert_file / -o)
+# drawn from one family of spellings; the probe uses the same names as its history.  Oracle: metamorphic (fresh process).
+FS_DIRS = ["cwd", "p", "h", "cwd/sub"]
+FS_DIRCODE = {"cwd": 1001, "p": 2002, "h": 3003, "cwd/sub": 4004}
+FS_TILDE_BARE = ["~out", "~o", "~tmp", "~image", "~Out", "~OUT", "~z"]
+FS_TILDE_OTHER = ["~out1", "~out.bin", "~", "~~out", "~out x", "~ out", "~out_", "~d/out", "~tmp.raw"]
+FS_PLAIN = ["out.bin", "img", "a.raw", "sub/out", "./img", "../h/img", "sub/../img", "<R>/h/abs.out", "out x"]
+FS_BODY = ["mov r0, r1", ".word 1, 2, 3", "nop", "clr r2", ".byte 5, 6", "inc @#177714", "mov #12, r3", ".word 177777"]
+FS_ITEM_KINDS = ["api-bare", "api-bare", "api-rel", "api-abs", "cli-rel", "cli-abs", "cli-o", "cli-o"]
+
+
+def fs_case_variant(rng, name):
+    return rng.choice([name.upper(), name.lower(), name.swapcase(), name[:1] + name[1:2].upper() + name[2:]])
+
+
+def fs_is_device(name):
+    """Spellings that reach a REGISTERED device (~speaker: plays sound through external programs) are never generated."""
+    t = name[1:].split(" ")[0].split("/")[0].lower() if name.startswith("~") else ""
+    return t in ("speaker",)
+
+
+def fs_source(rng, names, fault=None):
+    lines = [".link %s" % rng.choice(["2000", "1000", "40000"])] if rng.random() < 0.5 else []
+    lines += [rng.choice(FS_BODY) for _ in range(rng.randint(1, 4))]
+    for _ in range(rng.randint(1, 3)):
+        nm = rng.choice(names)
+        r = rng.random()
+        if r < 0.62:
+            lines.insert(rng.randrange(len(lines) + 1), '%s "%s"' % (rng.choice(["make_raw", "make_bin", "make_raw", "make_bin", "make_bk0010_rom"]), nm))
+        elif r < 0.68:
+            lines.append('make_wav "%s"' % nm)
+        elif r < 0.84:
+            lines.append('insert_file "%s"\n.even' % nm)
+        else:
+            lines.append('.include "%s"' % nm)
+    if fault == "undefined":
+        lines.append(".word no_such_symbol")
+    elif fault == "no-dir":
+        lines.append('make_raw "nodir/%s"' % rng.choice(names).replace("/", "_").replace("<R>", "r"))
+    elif fault == "missing-include":
+        lines.append('.include "missing.mac"')
+    elif fault == "syntax":
+        lines.append("mov r0,")
+    return "\n".join(lines) + "\n"
+
+
+def fs_item(rng, j, names, kind=None, where=None):
+    kind = kind or rng.choice(FS_ITEM_KINDS)
+    d = "cwd" if kind == "api-bare" else (where or rng.choice(FS_DIRS))
+    fn = "s%d.mac" % j
+    fault = rng.choice([None] * 12 + ["undefined", "no-dir", "missing-include", "syntax"])
+    item = {"kind": kind + (":" + fault if fault else ""), "src": d + "/" + fn, "text": fs_source(rng, names, fault)}
+    rel = {"cwd": fn, "p": "../p/" + fn, "h": "../h/" + fn, "cwd/sub": "sub/" + fn}[d]
+    if kind == "api-bare":
+        item["given"] = fn
+    elif kind in ("api-rel", "cli-rel", "cli-o"):
+        item["given"] = rng.choice([rel, "./" + rel]) if d != "cwd" or kind != "api-rel" else "./" + fn
+    else:
+        item["given"] = "<R>/" + d + "/" + fn
+    if kind.startswith("cli"):
+        item["opts"] = (["--lst"] if rng.random() < 0.35 else []) + (["--implicit-bin"] if rng.random() < 0.15 else [])
+        if kind == "cli-o":
+            item["opts"] += ["-o", rng.choice(names)]
+    return item
+
+
+def gen_fs_scenario(rng):
+    pool = []
+    if rng.random() < 0.8:
+        pool.append(rng.choice(FS_TILDE_BARE))
+    if rng.random() < 0.5:
+        pool.append(rng.choice(FS_TILDE_OTHER))
+    while len(pool) < 3:
+        n = rng.choice(FS_PLAIN + FS_TILDE_OTHER + FS_TILDE_BARE)
+        if n not in pool:
+            pool.append(n)
+    hnames = list(pool)
+    if rng.random() < 0.35:
+        k = rng.randrange(len(hnames))        # the history spells one name in another case (another file here, but the same 'device name')
+        hnames[k] = fs_case_variant(rng, hnames[k])
+    hnames = [n for n in hnames if not fs_is_device(n)] or ["img"]
+    pool = [n for n in pool if not fs_is_device(n)] or ["img"]
+    n = rng.choice([1, 1, 2, 3, 4, 6])
+    items = [fs_item(rng, j, hnames) for j in range(n)]
+    probe = fs_item(rng, 99, pool, where=rng.choice(["p", "p", "p", "h", "cwd/sub", "cwd"]))
+    inputs = {}
+    for d in FS_DIRS:
+        for nm in set(pool + hnames):
+            if "<R>" in nm or ".." in nm or rng.random() < 0.25:
+                continue
+            inputs[os.path.normpath(d + "/" + nm)] = ".word %d\n" % (FS_DIRCODE[d] + len(inputs) % 7)
+    if rng.random() < 0.75:
+        inputs["h/abs.out"] = ".word 3013\n"
+    return {"inputs": inputs, "history": items, "probe": probe, "names": pool}
+
+
+def fs_build_tree(root, sc):
+    import shutil
+    shutil.rmtree(root, ignore_errors=True)
+    for d in FS_DIRS + ["p/sub", "h/sub"]:
+        os.makedirs(os.path.join(root, d), exist_ok=True)
+    for d in FS_DIRS:
+        os.makedirs(os.path.join(root, d, "~d"), exist_ok=True)
+    for rel, text in sc["inputs"].items():
+        os.makedirs(os.path.dirname(os.path.join(root, rel)), exist_ok=True)
+        with open(os.path.join(root, rel), "w", encoding="utf-8") as f:
+            f.write(text)
+    for it in sc["history"] + [sc["probe"]]:
+        with open(os.path.join(root, it["src"]), "w", encoding="utf-8") as f:
+            f.write(it["text"].replace("<R>", root))
+
+
+def fs_snapshot(root):
+    import hashlib
+    out = {}
+    for dp, _dirs, names in os.walk(root):
+        for nm in names:
+            p = os.path.join(dp, nm)
+            with open(p, "rb") as f:
+                data = f.read()
+            out[os.path.relpath(p, root)] = "%s:%d" % (hashlib.sha1(data).hexdigest()[:16], len(data))
+    return out
+
+
+def fs_run_item(root, it):
+    """One real assembly with the process's cwd in <root>/cwd; returns everything observable except the tree."""
+    import contextlib, io
+    m = impl.load()
+    reports, parser, compiler = m["reports"], m["parser"], m["compiler"]
+    given = it["given"].replace("<R>", root)
+    out, err = io.StringIO(), io.StringIO()
+    res = {}
+    with contextlib.redirect_stdout(out), contextlib.redirect_stderr(err):
+        if it["kind"].startswith("cli"):
+            from pdpy11 import _cli
+            old = sys.argv
+            sys.argv = ["pdpy11", "--report-format", "bare"] + [o.replace("<R>", root) for o in it.get("opts", [])] + [given]
+            try:
+                _cli.main_cli()
+                res["status"] = 0
+            except SystemExit as ex:
+                res["status"] = ex.code if isinstance(ex.code, int) else 1
+            except Exception as ex:
+                res["status"] = "crash:" + type(ex).__name__
+            finally:
+                sys.argv = old
+        else:
+            diags = []
+
+            def handler(priority, identifier, *lst):
+                sev = "warning" if priority is reports.warning else ("critical" if priority is reports.critical else "error")
+                diags.append([sev, identifier, [[str(a.filename), a.pos, b.pos] for a, b, *_ in lst]])
+            res.update({"outcome": "ok", "base": None, "code": None, "diags": diags})
+            try:
+                with open(given, encoding="utf-8") as f:
+                    text = f.read()
+                with reports.handle_reports(handler):
+                    comp = compiler.Compiler()
+                    base, code = comp.compile_and_link_files([parser.parse(given, text)])
+                res["base"], res["code"] = base, bytes(code).hex()
+                with reports.handle_reports(handler):
+                    comp.emit_files(base, code)
+            except reports.UnrecoverableError:
+                res["outcome"] = "failed"
+            except Exception as ex:
+                res["outcome"] = "crash:" + type(ex).__name__
+    res["stdout"], res["stderr"] = out.getvalue(), err.getvalue()
+    return res
+
+
+def fs_child():
+    """Runs in a fresh interpreter: the sequence given on stdin, the tree rebuilt before the last item (the probe)."""
+    import signal
+    job = json.load(sys.stdin)
+    signal.alarm(120)                       # watchdog for the whole sequence
+    root, sc = job["root"], job["scenario"]
+    seq = (sc["history"] if job["with_history"] else []) + [sc["probe"]]
+    fs_build_tree(root, sc)
+    os.chdir(os.path.join(root, "cwd"))
+    log = []
+    res = None
+    for k, it in enumerate(seq):
+        if k == len(seq) - 1:
+            os.chdir("/")
+            fs_build_tree(root, sc)         # whatever the history wrote is gone: the probe starts from the same tree as in a fresh process
+            os.chdir(os.path.join(root, "cwd"))
+            before = fs_snapshot(root)
+        res = fs_run_item(root, it)
+        log.append([it["kind"], res.get("status", res.get("outcome"))])
+    after = fs_snapshot(root)
+    res["files_written"] = {k: v for k, v in after.items() if before.get(k) != v}
+    res["files_removed"] = sorted(k for k in before if k not in after)
+    res["cwd_after"] = os.path.relpath(os.getcwd(), root)
+    text = json.dumps({"probe_result": res, "log": log}, sort_keys=True).replace(root, "<R>")
+    print(text)
+
+
+FS_SNIPPET = "import sys; sys.path.insert(0, %r); from props import c18; c18.fs_child()" % os.path.join(C.ROOT, "tools")
+
+
+def fs_run(sc, with_history, key):
+    import shutil
+    root = os.path.join(G.SCRATCH, "fs", key)
+    env = dict(os.environ)
+    env["PYTHONPATH"] = C.REPO
+    env["PYTHONHASHSEED"] = "0"
+    env["PYTHONDONTWRITEBYTECODE"] = "1"
+    try:
+        os.makedirs(root, exist_ok=True)
+        for attempt in (150, 400):          # a loaded machine must not look like a failure: once more, longer
+            try:
+                p = subprocess.run([PY, "-c", FS_SNIPPET], input=json.dumps({"root": root, "scenario": sc, "with_history": with_history}), env=env,
+                                   stdout=subprocess.PIPE, stderr=subprocess.PIPE, text=True, timeout=attempt)
+            except subprocess.TimeoutExpired:
+                continue
+            if p.returncode == 0:
+                return json.loads(p.stdout.strip().splitlines()[-1])
+        return {"harness-error": p.stderr[-400:] if "p" in locals() else "timeout"}
+    finally:
+        shutil.rmtree(root, ignore_errors=True)
+
+
+def fs_differs(sc, want, key):
+    r = fs_run(sc, True, key)
+    return "probe_result" in r and r["probe_result"] != want
+
+
+def fs_shrink(sc, want, key):
+    hist = list(sc["history"])
+    i = 0
+    while i < len(hist):
+        cand = dict(sc, history=hist[:i] + hist[i + 1:])
+        if fs_differs(cand, want, key):
+            hist = cand["history"]
+        else:
+            i += 1
+    return dict(sc, history=hist)
+
+
+def fs_history_part(rep, rng, n):
+    scs = [gen_fs_scenario(rng) for _ in range(n)]
+    # the shapes the family is about, always present: a bare '~name' output of a source parsed under a bare file name / given with -o,
+    # then the same name from another directory (written, inserted, included)
+    for hk, pk, verb in (("api-bare", "api-abs", 'make_raw "~out"'), ("cli-o", "cli-abs", 'make_bin "~Tmp"'), ("api-bare", "cli-rel", 'insert_file "~o"\n.even'),
+                         ("cli-o", "api-abs", '.include "~o"')):
+        nm = verb.split('"')[1]
+        h = {"kind": hk, "src": "cwd/s0.mac", "given": "s0.mac", "text": 'mov r0, r1\nmake_bin "%s"\n' % nm.lower()}
+        if hk == "cli-o":
+            h.update({"opts": ["-o", nm.lower()], "text": "mov r0, r1\n"})
+        pr = {"kind": pk, "src": "p/s99.mac", "given": "<R>/p/s99.mac" if pk.endswith("abs") else "../p/s99.mac", "text": ".link 2000\n.word 1, 2, 3\n%s\n" % verb}
+        if pk.startswith("cli"):
+            pr["opts"] = []
+        scs.append({"inputs": {"p/" + nm: ".word 2002\n", "cwd/" + nm: ".word 1001\n", "p/" + nm.lower(): ".word 2003\n", "cwd/" + nm.lower(): ".word 1002\n"},
+                    "history": [h], "probe": pr, "names": [nm]})
+    try:
+        with ThreadPoolExecutor(max_workers=C.NPROC) as ex:
+            fresh_r = list(ex.map(lambda t: fs_run(t[1], False, "f%d" % t[0]), enumerate(scs)))
+            hist_r = list(ex.map(lambda t: fs_run(t[1], True, "h%d" % t[0]), enumerate(scs)))
+        shrunk = 0
+        for i, (sc, a, b) in enumerate(zip(scs, fresh_r, hist_r)):
+            rep.add_eval(2)
+            kinds = [h["kind"] for h in sc["history"]]
+            for k in kinds:
+                rep.count("fs-history-item:" + k.split(":")[0])
+            rep.count("fs-probe:" + sc["probe"]["kind"].split(":")[0])
+            for nm in sc["names"]:
+                rep.count("fs-name:" + ("tilde-letters" if nm.startswith("~") and nm[1:].isalpha() else "tilde-other" if nm.startswith("~") else "plain"))
+            if "probe_result" not in a or "probe_result" not in b:
+                rep.disagree("file-system history worker failed", {"fs_scenario": sc}, impl={"fresh": a, "after_history": b})
+                continue
+            rep.traces_validated += 1
+            for k, o in b["log"][:-1]:
+                rep.count("fs-item-outcome:%s->%s" % (k.split(":")[0], o))
+            if a["probe_result"]["files_written"]:
+                rep.count("fs-probe-wrote-files")
+            rep.nontrivial(("fs", tuple(kinds), sc["probe"]["kind"], tuple(sc["names"]), i))
+            if a["probe_result"] != b["probe_result"]:
+                shrunk += 1
+                small = fs_shrink(sc, a["probe_result"], "s%d" % i) if shrunk <= 3 else sc
+                diff = sorted(k for k in set(a["probe_result"]) | set(b["probe_result"]) if a["probe_result"].get(k) != b["probe_result"].get(k))
+                rep.violate("fs-history:" + ",".join(h["kind"].split(":")[0] for h in small["history"])[:60] + ":" + small["probe"]["kind"] + ":" + ",".join(diff),
+                            "the probe's result on the real file system (status / base / bytes / diagnostics / files written, by path and content) after this history "
+                            "differs from its result in a fresh process; differing parts: " + ", ".join(diff),
+                            {"fs_scenario": small, "original_history_length": len(sc["history"])},
+                            expected=a["probe_result"], observed=b["probe_result"],
+                            replay="props.c18.fs_run(fs_scenario, True, 'x') vs props.c18.fs_run(fs_scenario, False, 'y')")
+    finally:
+        G.cleanup()
+    if scs:
+        rep.sample({"fs_history_kinds": [h["kind"] for h in scs[0]["history"]], "fs_probe": scs[0]["probe"], "names": scs[0]["names"]})
+
+
 def explore(rep, br, tier, seed):
     rng = random.Random(seed)
+    fs_history_part(rep, random.Random(seed * 31 + 5), 70 if tier == "quick" else 1200)
     nest_part(rep, rng, 600 if tier == "quick" else 12000)
     seeds = [str(s) for s in range(16)] + ["random"]
     cli_hash_part(rep, rng, 8 if tier == "quick" else 40, seeds)
@@ -905,6 +1220,8 @@ def search(rep, br, tier, seed):
             break
     cli_hash_part(rep, rng, 8, [str(x) for x in range(8)])
     if not rep.violations:
+        fs_history_part(rep, rng, 150 if tier == "quick" else 1500)
+    if not rep.violations:
         history_part(rep, rng, nprobes=10, nhist_per_probe=8 if tier == "quick" else 20, maxlen=50, seeds=["0", "1", "2", "3"])
 
 
@@ -916,6 +1233,14 @@ def replay(data):
         o = run_nest(tup(inp["nesting"]), inp["start_depth"], inp["n_ids"])
         print("observed now:", o)
         return o["depth"] == inp["start_depth"] and not o["awaiting"] and not o["handlers"] and not any(o["flags"])
+    if "fs_scenario" in inp:
+        try:
+            a, b = fs_run(inp["fs_scenario"], False, "replay-f"), fs_run(inp["fs_scenario"], True, "replay-h")
+        finally:
+            G.cleanup()
+        print("fresh process :", json.dumps(a.get("probe_result"))[:900])
+        print("after history :", json.dumps(b.get("probe_result"))[:900])
+        return "probe_result" in a and a.get("probe_result") == b.get("probe_result")
     if "cli_source_last_only" in inp:
         d = os.path.join(G.SCRATCH, "hash", "replay")
         try:
